@@ -32,6 +32,33 @@ MODS = [["c", 1], ["c", 2], ["d"], ["pi", 2], ["pi", -1], ["pf", 0.5], ["e"]]
 ODD_MODS = [["c", 0], ["c", 3], ["pi", 0], ["pi", 3], ["pi", -2], ["pf", 0.25], ["pf", 1.5], ["pf", -0.5]]
 EXACT_MODS = [["c", 1], ["c", 2], ["d"], ["pi", 2], ["pi", 3], ["pi", 0]]
 PARAM_BASES = {"RX": 1, "RZs": 1, "cp": 1, "X": 0, "S": 0}
+# "the gate built with the new parameters": fresh construction, not replace_params
+FRESH = {"RX": RX, "RZs": RZ, "cp": CP_DEF, "X": lambda: X, "S": lambda: S}
+
+# custom parametric definitions whose matrix is self-adjoint (or the identity) at boundary parameter values
+TS, AS, BS = sympy.symbols("t a b")
+_I = sympy.I
+CUSTOM_DEFS = {
+    "PH": CustomGateDefinition("PH", sympy.Matrix([[1, 0], [0, sympy.exp(_I * TS)]]), (TS,)),
+    "POLY": CustomGateDefinition("POLY", sympy.Matrix([[1, 0], [0, 1 + _I * TS]]), (TS,)),              # not unitary
+    "ROTP": CustomGateDefinition("ROTP", sympy.Matrix([[1, TS], [-TS, 1]]), (TS,)),                      # not unitary
+    "ROT": CustomGateDefinition("ROT", sympy.Matrix([[sympy.cos(TS / 2), -sympy.sin(TS / 2)],
+                                                     [sympy.sin(TS / 2), sympy.cos(TS / 2)]]), (TS,)),
+    "PH2": CustomGateDefinition("PH2", sympy.Matrix([[1, 0, 0, 0], [0, 1, 0, 0], [0, 0, 1, 0],
+                                                     [0, 0, 0, sympy.exp(_I * TS)]]), (TS,)),
+    "U2": CustomGateDefinition("U2", sympy.Matrix([[1, 0, 0, 0], [0, 1 + _I * AS, 0, 0], [0, 0, 1, BS],
+                                                   [0, 0, -BS, 1]]), (AS, BS)),                            # not unitary
+}
+PI = 3.141592653589793
+# parameter rows at which the matrix is self-adjoint (boundary) and one generic row
+CUSTOM_STARTS = {
+    "PH": [[0], [PI], [0.0], [0.75]], "POLY": [[0], [0.75]], "ROTP": [[0], [-1.25]], "ROT": [[0], [2 * PI], [0.75]],
+    "PH2": [[0], [PI], [0.75]], "U2": [[0, 0], [0.0, 0.5], [0.75, -0.25]],
+}
+CUSTOM_NEW = {1: [[["n", 0.3]], [["n", -1.25]], [["s", "phi"]], [["n", 0.0]]],
+              2: [[["n", 0.3], ["n", 0.5]], [["n", 0.0], ["n", -1.25]], [["s", "phi"], ["n", 0.5]], [["n", 0.0], ["n", 0.0]]]}
+CUSTOM_MODS = [["c", 1], ["c", 2], ["d"], ["pi", 2], ["pi", -1], ["e"]]
+SLOW_EXP_NAMES = ("T", "RX", "RZ", "cp") + tuple(CUSTOM_DEFS)
 NEW_PARAMS = [["n", 0.5], ["n", -1.25], ["s", "phi"]]
 
 H = Harness("C07", ["OQ.Base.CaseEq", "OQ.Circ.GateAst", "OQ.Circ.GateAstCases"],
@@ -39,8 +66,12 @@ H = Harness("C07", ["OQ.Base.CaseEq", "OQ.Circ.GateAst", "OQ.Circ.GateAstCases"]
             "power(0.5), exp} on each of X Z S T SX RX(0.3) RZ(theta) CNOT custom(0.25); N<=3 quick, N<=4 thorough; "
             "structure and ValueError compared in Coq), chain-odd (controlled(0), other exponents), raw (objects built "
             "directly with the class constructors, then 1-2 calls), replace (replace_params after the chain vs chain after "
-            "replace_params, numeric and symbolic new parameters), sem (exact matrices of X Z S SX CNOT custom under "
-            "controlled/dagger/integer powers vs the model's matrix), suffix -num = numpy/scipy oracle evaluated on the "
+            "replace_params and vs the chain on a freshly built gate, numeric and symbolic new parameters), sem (exact matrices of X Z S SX CNOT custom under "
+            "controlled/dagger/integer powers vs the model's matrix), custom / custom-boundary (six custom definitions - phase, "
+            "polynomial non-unitary, rotation, 2-qubit, two-parameter - built at parameters where the matrix is "
+            "self-adjoint (0, pi, 2 pi) or generic, calls, replace_params to generic / symbolic / boundary values, more "
+            "calls, a dagger before or after; compared with the model and with the same calls on a freshly built gate; "
+            "every is_hermitian flag re-checked against the matrix), bind (same through bind on symbolic parameters), suffix -num = numpy/scipy oracle evaluated on the "
             "last call, -num-skip = matrix too large (dimension > 4 with exp, > 8 without) or a gate on which sympy 1.9 is "
             "known not to answer in seconds, -num-timeout = sympy did not answer within the 5 s alarm, -num-sympyfail = "
             "sympy's Jordan form failed on a nested fractional power / exponential; "
@@ -168,7 +199,7 @@ def sympy_slow(g):
         cl.append(type(b).__name__)
         b = b.wrapped_gate
     n = cl.count("Exponential")
-    return slow or n >= 2 or (n == 1 and b.name in ("T", "RX", "RZ", "cp"))
+    return slow or n >= 2 or (n == 1 and b.name in SLOW_EXP_NAMES)
 
 def classes(g):
     out = []
@@ -252,6 +283,44 @@ def numeric_last_step(g, m, G, timeout, fast):
         return ("num-skip", True, "exponent is neither an integer nor a unit fraction", False)
     raise ValueError(m)
 
+def base_of(g):
+    while type(g) is not MatrixFactoryGate:
+        g = g.wrapped_gate
+    return g
+
+def flag_oracle(G):
+    """A base gate flagged is_hermitian must have a self-adjoint matrix (at its CURRENT parameters)."""
+    b = base_of(G)
+    if not b.is_hermitian or b.num_qubits > 3:
+        return True, ""
+    st, M = outcome(lambda: npmat(b.matrix), timeout=5)
+    if st != "ok":
+        return True, ""
+    ok = close(M, M.conj().T)
+    return ok, "" if ok else f"{b} is flagged is_hermitian but its matrix {M.tolist()} is not self-adjoint"
+
+def fold_numeric(A, chain):
+    """What the calls promise, folded with numpy/scipy on a base matrix; None when the matrix gets too large or a
+    call has no single-valued meaning (fractional powers)."""
+    for m in chain:
+        if m[0] == "c":
+            n = A.shape[0]
+            if n * 2 ** m[1] > 16:
+                return None
+            W = np.eye(n * 2 ** m[1], dtype=complex)
+            W[-n:, -n:] = A
+            A = W
+        elif m[0] == "d":
+            A = A.conj().T
+        elif m[0] == "e":
+            A = scipy.linalg.expm(A)
+        elif m[0] == "pi":
+            p = int(m[1])
+            A = np.linalg.matrix_power(A, p) if p >= 0 else np.linalg.matrix_power(np.linalg.inv(A), -p)
+        else:
+            return None
+    return A
+
 def struct_oracle(base, chain, G):
     """num_qubits and params of the result, recomputed from the request."""
     want_q = base.num_qubits + sum(m[1] for m in chain if m[0] == "c")
@@ -311,6 +380,19 @@ def gen(rng, tier):
         for c in chains(MODS, rdepth):
             for ps in NEW_PARAMS:
                 yield dict(kind="replace", base=b, chain=c, ps=[ps] * PARAM_BASES[b])
+    # custom definitions built at boundary parameters, re-parametrised, with a dagger before or after
+    combos = [(a, b) for a in chains(CUSTOM_MODS, 2) for b in chains(CUSTOM_MODS, 1)]
+    with_d = [ab for ab in combos if ["d"] in ab[0] + ab[1]]
+    without_d = [ab for ab in combos if ["d"] not in ab[0] + ab[1]]
+    for name, D in CUSTOM_DEFS.items():
+        for psn in CUSTOM_NEW[len(D.params_ordering)]:
+            for start in CUSTOM_STARTS[name]:
+                sel = with_d + without_d if thorough else rng.sample(with_d, 7) + rng.sample(without_d, 2) + [([["d"]], []), ([], [["d"]])]
+                for a, b in sel:
+                    yield dict(kind="custom", defn=name, start=start, a=a, ps=psn, b=b, num=True)
+            bsel = [ab for ab in combos if all(m[0] in ("c", "d") for m in ab[0])]
+            for a, b in (bsel if thorough else rng.sample(bsel, 5)):
+                yield dict(kind="bind", defn=name, a=a, ps=psn, b=b, num=True)
     for b in EXACT_BASES:
         for c in chains(EXACT_MODS, 3):
             nq = (2 if b == "CNOT" else 1) + sum(m[1] for m in c if m[0] == "c")
@@ -347,6 +429,8 @@ def run_chain(inp, g0, label):
     if res[0] == "ok":
         G = res[1]
         ok, msg = struct_oracle(g0, chain, G)
+        if ok:
+            ok, msg = flag_oracle(G)
         # independent restatement of when ValueError was due: free symbols under power/exp, or fewer than one
         # control requested from a gate that carries no control count to add to
         if ok and g0.free_symbols and any(m[0] in ("pi", "pf", "e") for m in chain):
@@ -373,6 +457,60 @@ def run_chain(inp, g0, label):
         if not ((free and needs_numeric) or zero_ctrl):
             ok, msg = False, f"unexpected ValueError for chain {chain}"
     return dict(chk=chk, oracle_ok=ok, oracle_msg=msg, sig=sig, kind=kind, nontrivial=bool(reassociates(g0, chain)))
+
+def run_custom(inp):
+    """b(a(D(start)).replace_params(ps)) [kind custom] or b(a(D(symbols)).bind(symbols -> ps)) [kind bind] against
+    b(a(D(ps))) on a freshly built gate."""
+    D = CUSTOM_DEFS[inp["defn"]]
+    a, b, kind = inp["a"], inp["b"], inp["kind"]
+    ps = new_params(inp["ps"])
+    if kind == "bind":
+        syms = [sympy.Symbol(f"s{i}") for i in range(len(ps))]
+        g0 = D(*syms)
+        mid = lambda g: g.bind(dict(zip(syms, ps)))
+    else:
+        g0 = D(*inp["start"])
+        mid = lambda g: g.replace_params(ps)
+    rG = outcome(lambda: apply_chain(mid(apply_chain(g0, a)), b))
+    rF = outcome(lambda: apply_chain(apply_chain(D(*ps), a), b))
+    oG, oF = enc_observed(rG), enc_observed(rF)
+    if oG is None or oF is None:
+        return dict(chk="false", oracle_ok=False, oracle_msg=f"raised {rG[1] if oG is None else rF[1]}", kind=kind + "-crash")
+    chk = f"custom_eqb {enc_gate(g0)} {clist(a, enc_mod)} {clist(ps, enc_param)} {clist(b, enc_mod)} {oG} {oF}"
+    label = kind + ("-boundary" if kind == "custom" and not g0.free_symbols and close(npmat(g0.matrix), npmat(g0.matrix).conj().T) else "")
+    ok, msg = True, ""
+    if rG[0] != rF[0]:
+        ok, msg = False, f"{rG} but on the gate built with the new parameters {rF}"
+    elif rG[0] == "err":
+        label += "-valueerror"
+        if not (any(p.free_symbols for p in map(sympy.sympify, ps)) and any(m[0] in ("pi", "e") for m in a + b)):
+            ok, msg = False, f"unexpected ValueError for {a} / {b}"
+    else:
+        G, F = rG[1], rF[1]
+        msgs = []
+        if inp.get("num"):
+            want = fold_numeric(npmat(D(*ps).matrix), a + b)
+            got = matrix_of(G, 5) if want is not None and not sympy_slow(G) else ("skip", "")
+            if got[0] == "ok":
+                label += "-num"
+                if not close(got[1], want):
+                    msgs.append(f"matrix of {G} (built at {inp.get('start', 'symbols')}, re-parametrised to {list(ps)}) is "
+                                f"{got[1].tolist()}; the calls {a + b} on the matrix of the gate built with the new "
+                                f"parameters give {want.tolist()}")
+            elif got[0] == "err":
+                msgs.append(f"matrix raised {got[1]}")
+            else:
+                label += "-num-" + got[0]
+        fl = flag_oracle(G)
+        if not fl[0]:
+            msgs.append(fl[1])
+        if G != F or enc_gate(G) != enc_gate(F):
+            msgs.append(f"re-parametrised gate {G!r} differs from the gate built with the new parameters {F!r}")
+        if (G.num_qubits != g0.num_qubits + sum(m[1] for m in a + b if m[0] == "c") or len(G.params) != len(ps)
+                or not all(sympy.sympify(x).equals(sympy.sympify(y)) for x, y in zip(G.params, ps))):
+            msgs.append(f"num_qubits {G.num_qubits} / params {G.params}")
+        ok, msg = not msgs, "; ".join(msgs)
+    return dict(chk=chk, oracle_ok=ok, oracle_msg=msg, kind=label, nontrivial=bool(a or b))
 
 def run_case(inp):
     kind = inp["kind"]
@@ -403,8 +541,17 @@ def run_case(inp):
         if o1 is None or o2 is None:
             return dict(chk="false", oracle_ok=False, oracle_msg=f"replace_params raised {r1[1] if o1 is None else r2[1]}",
                         kind="replace-crash")
-        chk = f"replace_eqb {enc_gate(g0)} {clist(chain, enc_mod)} {clist(ps, enc_param)} {o1} {o2}"
-        if r1[0] != r2[0]:
+        r3 = outcome(lambda: apply_chain(FRESH[inp["base"]](*ps), chain))
+        o3 = enc_observed(r3)
+        if o3 is None:
+            return dict(chk="false", oracle_ok=False, oracle_msg=f"chain on the freshly built gate raised {r3[1]}", kind="replace-crash")
+        chk = (f"replace_eqb {enc_gate(g0)} {clist(chain, enc_mod)} {clist(ps, enc_param)} {o1} {o2}"
+               f" && fresh_eqb {enc_gate(g0)} {clist(chain, enc_mod)} {clist(ps, enc_param)} {o3}")
+        if r1[0] != r3[0] or (r1[0] == "ok" and (r1[1] != r3[1] or enc_gate(r1[1]) != enc_gate(r3[1]))):
+            ok, msg = False, f"replace_params after {chain}: {r1}, but the chain on the gate built with the new parameters: {r3}"
+        elif r1[0] == "ok" and not flag_oracle(r1[1])[0]:
+            ok, msg = flag_oracle(r1[1])
+        elif r1[0] != r2[0]:
             ok, msg = False, f"replace_params after {chain}: {r1}, but the chain after replace_params: {r2}"
         elif r1[0] == "ok":
             ok = r1[1] == r2[1] and tuple(r1[1].params) == tuple(ps) and r1[1].num_qubits == g1.num_qubits
@@ -413,6 +560,8 @@ def run_case(inp):
             ok, msg = r1[1] == r2[1], f"different errors {r1[1]} / {r2[1]}"
         return dict(chk=chk, oracle_ok=ok, oracle_msg=msg, kind="replace" + ("" if r1[0] == "ok" else "-valueerror"),
                     nontrivial=len(chain) >= 1)
+    if kind in ("custom", "bind"):
+        return run_custom(inp)
     if kind == "sem":
         g0 = POOL[inp["base"]]()
         chain = inp["chain"]
